@@ -453,10 +453,18 @@ func (g *gen) buildMessage(p *msgPlan) {
 	// a real, unexposed oneof
 	if rapid.IntRange(0, 3).Draw(t, "realoneof") == 0 {
 		idx := len(d.OneofDecl)
-		d.OneofDecl = append(d.OneofDecl, &descriptorpb.OneofDescriptorProto{Name: proto.String(fmt.Sprintf("choice_%d", p.index))})
+		oneofName := fmt.Sprintf("choice_%d", p.index)
+		// a plain oneof that happens to be called "type", as wrappers' oneofs are:
+		// with fields outside it (or scalar members) the message is still an object
+		typeNamed := len(d.Field) > 0 && rapid.IntRange(0, 2).Draw(t, "oneofnamedtype") == 0
+		if typeNamed {
+			oneofName = "type"
+			g.cls("plain-oneof-named-type")
+		}
+		d.OneofDecl = append(d.OneofDecl, &descriptorpb.OneofDescriptorProto{Name: proto.String(oneofName)})
 		n := rapid.IntRange(1, 3).Draw(t, "nreal")
 		for i := 0; i < n; i++ {
-			f := addField(g.drawType(p, false, false), "", idx, nil)
+			f := addField(g.drawType(p, typeNamed && rapid.Bool().Draw(t, "msgarms"), false), "", idx, nil)
 			p.clientNm[jsonName(f.GetName())] = true
 		}
 		g.cls("plain-oneof")
